@@ -83,6 +83,17 @@ def check(ctx):
     ctx.no_shape_conflicts("Shape", "VoronoiFPS._update_post_selection", I, 0, site)
     ns = ctx.attr(st, o, "n_selected_")
     ctx.ob("R-ONCE", "one selection advances n_selected_ by exactly one", N.nf(ns.term) == N.nf(T("add", nsel.term, T("const", __import__("fractions").Fraction(1)))), f"{ns.term!r}", site)
+    # empty active set (the new point duplicates a selected one): the selection is still recorded
+    I0 = ctx.interp(stubs={"VoronoiFPS._get_active": lambda i_, c_, a_, k_, s_, n_: arr("active0", 0, inp=False, dtype="int")})
+    st0 = State()
+    o0 = ctx.bare_object(I0, st0, cls, attrs())
+    ctx.call_method(I0, st0, o0, "_update_post_selection", X, y, l)
+    ns0 = ctx.attr(st0, o0, "n_selected_")
+    ctx.ob("R-ONCE", "empty active set: the selection is still recorded (counter advanced by one)", N.nf(ns0.term) == N.nf(T("add", nsel.term, T("const", __import__("fractions").Fraction(1)))), f"{ns0.term!r}", site)
+    sel0 = ctx.attr(st0, o0, "selected_idx_")
+    ctx.ob("R-ONCE", "empty active set: the picked index is stored at the current slot", N.nf(sel0.term) == N.nf(T("store", sel.term, nsel.term, l.term)), f"{sel0.term!r}", site)
+    h0 = ctx.attr(st0, o0, "hausdorff_")
+    ctx.ob("R-BOTHARMS", "empty active set: the distance table is left unchanged", h0.term == H.term, f"{h0.term!r}"[:120], site)
     # sibling agreement with plain FPS on the full arm
     I3, s3 = ctx.interp(), State()
     fps = ctx.call_func(I3, s3, "ref.selection_ref.fps_update", X, norms, H, Hs, l, 0)
@@ -140,6 +151,21 @@ def _calibration(ctx, N, cls):
     I2, s2 = ctx.interp(), State()
     ref = ctx.call_func(I2, s2, "ref.selection_ref.fps_norms", X, 0)
     ctx.compare("NF-DIST", "norms_ defined as in plain FPS (sample direction)", N, heap.get("norms_"), ref, site)
+    # refit: every table is rebuilt from the new data
+    from .C08 import _fitted_state
+
+    Is = ctx.interp(stubs={"VoronoiFPS._update_post_selection": noop}, assume=protocols.assume_default)
+    ss = State()
+    stale = {k: v for k, v in _fitted_state("VoronoiFPS", 0, "N").items() if isinstance(v, V)}
+    stale = {k: (arr("stale_" + k, *[repr(d) for d in v.shape], inp=False) if v.shape not in (None, ()) else v) for k, v in stale.items()}
+    stale.update({"_axis": 0, "initialize": 0, "random_state": 0, "full_fraction": scalar("ff", 0, 1, True, False), "n_trial_calculation": 4})
+    os_ = ctx.bare_object(Is, ss, cls, stale)
+    ctx.call_method(Is, ss, os_, "_init_greedy_search", X, y, integer("S"))
+    hs = ss.heap[os_.obj.id]
+    from .. import tq
+
+    left = sorted(k for k in ("norms_", "hausdorff_", "hausdorff_at_select_", "vlocation_of_idx", "dSL_", "X_selected_", "selected_idx_") if k in hs and any(x.op == "sym" and str(x.args[0]).startswith("stale_") for x in tq.walk_all(hs[k].term)))
+    ctx.ob("R-PADPAIR", "a refit rebuilds norms, distance tables and cell bookkeeping from the new data", not left, f"still holding values of the previous fit: {left}", site)
     # one step with a timing-dependent switching point: exactly one branch depends on it
     I = ctx.interp(order=[("A", ">=", 1)], stubs={"VoronoiFPS._get_active": lambda i, c, a, k, s, n: arr("active", "A", inp=False, dtype="int")})
     st = State()
